@@ -1,5 +1,5 @@
 \* spec mutation noUnmark under fairness: the liveness property must be violated
-CONSTANTS Nodes = {"n1", "n2"}  Cmds = {"A"}  MaxRepl = 1  T = 1  MaxNow = 2  MaxFaults = 1  MaxRestarts = 1
+CONSTANTS Nodes = {"n1", "n2"}  Cmds = {"A"}  MaxRepl = 1  T = 1  MaxNow = 2  MaxFaults = 1  MaxRestarts = 1  MaxCandVanish = 1
           DelFaults = TRUE  CodeMode = "code"  Weak = "noUnmark"  Serial = FALSE  Gen = FALSE  MaxLen = 0
 SPECIFICATION FairSpec
 INVARIANTS TypeOK
